@@ -147,7 +147,7 @@ def enum_variant_has_v(facts, ty, variant):
     return True
 
 
-def live_drops(fl, body, pred=None):
+def live_drops(fl, body, pred=None, track_lits=False):
     """Live implicit drops of V-bearing locals (or of locals whose type satisfies `pred`):
     [(bi, term, local, description of the path)]."""
     facts = fl.facts
@@ -221,7 +221,7 @@ def live_drops(fl, body, pred=None):
             return s.with_user(frozenset(moved))
         return None
 
-    at, entry = dataflow(body, init_user=frozenset(), node_fn=node_fn, edge_fn=edge_fn, max_states=3000, track_lits=False)
+    at, entry = dataflow(body, init_user=frozenset(), node_fn=node_fn, edge_fn=edge_fn, max_states=3000 if not track_lits else 20000, track_lits=track_lits)
     out = []
     for bi in body.live_blocks():
         t = body.term(bi)
@@ -329,6 +329,16 @@ def check_live_drops(rep, fl, rule="R08.1"):
                     why = reason
                     used.add(i_)
                     break
+            if why is None and nty == "V" and 1 <= l <= b.arg_count and re.search(r"^cache::Cache::(try_insert_in|try_update)$", nfn):
+                # the value handed to an insert, dropped where the closed flag has just been read as set: the same documented
+                # path as the audited `val` of try_insert_in, wherever in the insert's two functions the test is written
+                import props_life as _pl
+                try:
+                    sts_ = [expand_state(b, s_, hist=True) for bi2, t2, l2, st2 in live_drops(fl, b, track_lits=True) if (bi2, l2) == (bi, l) for s_ in st2]
+                except TooManyStates:
+                    sts_ = []
+                if sts_ and all([v_ for a_, v_ in s_.lits if _pl.is_closed_lit(a_)] == [True] for s_ in sts_):
+                    why = "closed cache: the value is dropped and insert returns false (never accepted)"
             site = "drop %s: %s" % (name, neutral_ty(ty))
             if why:
                 rep.ok(rule, fl, b, site, "audited: " + why, loc=t["sp"])
